@@ -27,7 +27,7 @@ def fcell(x):
 def ts(iso):
     import pandas as pd
 
-    return ["d", dt_ns(pd.Timestamp(datetime.datetime.fromisoformat(iso)))]
+    return ["d", dt_ns(pd.Timestamp(iso))]      # not via datetime.fromisoformat: it drops sub-microsecond digits
 
 
 # (cell, expected) pairs per column kind; text spellings first, then native cells
@@ -53,7 +53,10 @@ ONOFF_BAD_NATIVE = [{"i": 2}, {"f": (0.5).hex()}, None, {"d": "2020-01-02T00:00:
 DT_OK = [("2020-01-02", ts("2020-01-02T00:00:00")), ("2020-01-02 03:04:05", ts("2020-01-02T03:04:05")),
          ("2021-12-31T23:59:59", ts("2021-12-31T23:59:59")), ("2020-01-02 03:04:05.123456", ts("2020-01-02T03:04:05.123456")),
          ("20200102", ts("2020-01-02T00:00:00")), (" 2020-01-02 ", ts("2020-01-02T00:00:00")),
-         ("1999-12-31 00:00", ts("1999-12-31T00:00:00")), ("2020-02-29T12:00:00.5", ts("2020-02-29T12:00:00.500000"))]
+         ("1999-12-31 00:00", ts("1999-12-31T00:00:00")), ("2020-02-29T12:00:00.5", ts("2020-02-29T12:00:00.500000")),
+         # more fractional digits than a python datetime holds
+         ("2021-06-30T23:59:59.999999999", ts("2021-06-30T23:59:59.999999999")),
+         ("2021-07-01 00:00:00.0000001", ts("2021-07-01T00:00:00.000000100"))]
 DT_MISSING = [("-", ["m"]), ("nan", ["m"]), ("NaN", ["m"]), ("NAN", ["m"]), (" - ", ["m"]), ("nAn ", ["m"])]
 DT_NATIVE = [({"d": "2020-01-02T03:04:05"}, ts("2020-01-02T03:04:05")), ({"ts": "2021-06-30T12:00:00.000250"}, ts("2021-06-30T12:00:00.000250")),
              ({"nat": 1}, ["m"]), ({"d": "1950-05-05T05:05:05"}, ts("1950-05-05T05:05:05"))]
@@ -139,12 +142,14 @@ def is_blank_cell(c):
     return c is None or (isinstance(c, str) and not c.strip())
 
 
-def gen_parts(rng, native=False, bad_rate=0.0, max_cols=4, max_rows=4, names=None, table_name=None):
+def gen_parts(rng, native=False, bad_rate=0.0, max_cols=4, max_rows=4, names=None, table_name=None, kinds_pool=None,
+              min_cols=1, min_rows=0):
     """Cells of a table, column by column, with the expected parse (orientation-free)."""
     while True:
-        ncols = rng.randint(1, max_cols)
+        ncols = rng.randint(min_cols, max_cols)
         nrows = rng.choice([0, 1, 2, max_rows]) if rng.random() < 0.85 else rng.randint(0, max_rows)
-        kinds = [rng.choice(["text", "onoff", "datetime", "float", "float"]) for _ in range(ncols)]
+        nrows = max(nrows, min_rows)
+        kinds = [rng.choice(kinds_pool or ["text", "onoff", "datetime", "float", "float"]) for _ in range(ncols)]
         cnames = names or rng.sample(NAMES, ncols)
         units = [{"text": "text", "onoff": "onoff", "datetime": "datetime"}.get(k) or rng.choice(UNITS_NUM) for k in kinds]
         name = table_name or ("t" + str(rng.randint(0, 9)) + rng.choice(["", "_x", "é", ".1"]))
@@ -200,7 +205,46 @@ def gen_table_grid(rng, native=False, bad_rate=0.0, max_cols=4, max_rows=4, tran
     parts, exp = gen_parts(rng, native, bad_rate, max_cols, max_rows, names, table_name)
     tr = (rng.random() < 0.4) if transposed is None else transposed
     exp["transposed"] = tr
+    if tr and rng.random() < 0.3:
+        stagger_blanks(parts, exp)
     return layout(rng, parts, tr, header_noise), exp
+
+
+def gen_staggered_grid(rng, native=False):
+    """A transposed table of text (and, in native grids, numeric) columns, 3-5 rows, every column with a gap."""
+    parts, exp = gen_parts(rng, native, 0.0, 4, 4, None, None, kinds_pool=["text", "text", "float"] if native else ["text"],
+                           min_cols=2, min_rows=rng.choice([3, 4, 5]))
+    exp["transposed"] = True
+    stagger_blanks(parts, exp)
+    return layout(rng, parts, True, rng.random() < 0.5), exp
+
+
+def stagger_blanks(parts, exp):
+    """Transposed layout only: give every column a blank cell before its end, at staggered rows, so that no
+    line is gap-free while no row is entirely blank (text: empty string; native numeric: None = missing)."""
+    cols, kinds = parts["cols"], exp["kinds"]
+    ncols = len(cols)
+    nrows = len(cols[0]) if ncols else 0
+    if ncols < 2 or nrows < 3 or exp["bad"]:
+        return
+    if not all(k == "text" or (k == "float" and parts["native"]) for k in kinds):
+        return
+    for j in range(ncols):
+        i = j % (nrows - 1)
+        if kinds[j] == "text":
+            cols[j][i] = ""
+            exp["cols"][j]["values"][i] = ["s", ""]
+        else:
+            cols[j][i] = None
+            exp["cols"][j]["values"][i] = ["m"]
+    # a row must not become entirely blank (that ends the table): fill one cell that is not a designated gap
+    for i in range(nrows):
+        if all(is_blank_cell(cols[j][i]) for j in range(ncols)):
+            j = next(j for j in range(ncols) if j % (nrows - 1) != i)
+            if kinds[j] == "text":
+                cols[j][i], exp["cols"][j]["values"][i] = "v", ["s", "v"]
+            else:
+                cols[j][i], exp["cols"][j]["values"][i] = {"i": 3}, n(3)
 
 
 def blank_row(rng, native=False):
